@@ -312,7 +312,12 @@ func runC07(r *Run) {
 		// how long may a call take?
 		bound := 400 * time.Millisecond // the scaled liveness timeouts (100 / 60 ms), retries on other connections, slack
 		if sc.fault == "dial-blocks" && sc.trigger == "none" {
+			// only the real 5 s dial timeout ends this. A pipelined query that was queued on somebody else's dialing
+			// connection is retried on a new one when that dial fails (C08: at most 3 attempts), so up to 3 x 5 s.
 			bound = 5500 * time.Millisecond
+			if sc.kind != "reuse" && sc.callers > 1 {
+				bound = 16 * time.Second
+			}
 		}
 		doneCh := make(chan struct{})
 		go func() { wg.Wait(); close(doneCh) }()
